@@ -226,9 +226,13 @@ RESP = TupleS(INT, INT, INT)        # (kind, number, ghost uid)  kind: 1 EXPUNGE
 Frozen = RecS('Frozen', pyclass=(F, '_Frozen'), is_deleted=BOOL, uids=SetS(INT), seqs_cache=MapS(INT, INT),
               flags=SetS(FK), recent=SetS(INT), sflags=SetS(FK), g_sorted=ListS(INT))
 Frozen.ghost['g_sorted'] = lambda obj: sorted(obj.uids)
-SFlags = RecS('SessionFlagsOpaque')
+from .flags import PermS, SessS  # noqa: E402
+from .dictmbx import Oid  # noqa: E402
+NameR = RefS('MailboxName')
+SFlags = SessS
 SEL = RecS('SelectedMailbox', pyclass=(F, 'SelectedMailbox'), _hide_expunged=BOOL, _messages=SM,
-           _session_flags=SFlags, _silenced_flags=SetS(FK), _silenced_sflags=SetS(FK))
+           _session_flags=SessS, _silenced_flags=SetS(FK), _silenced_sflags=SetS(FK),
+           _readonly=BOOL, _mailbox_id=Oid, _lookup=NameR, _permanent_flags=PermS, _is_deleted=BOOL)
 
 
 def frozen_ri(f):
@@ -547,3 +551,20 @@ get_all = Contract(
     calls={}, modifies=[], raises_only=(), returns=ListS(TupleS(INT, Msg)), pure=True)
 
 REG[('SequenceSet', 'flatten')] = _flatten_model
+
+
+# ---- SelectedSet.any_selected (C17/C12): never hands out a read-only selection
+
+SelR = RefS('Selection', readonly=BOOL)
+SelSetRec = RecS('SelectedSet', pyclass=(F, 'SelectedSet'), _set=SetS(SelR))
+
+any_selected = Contract(
+    'C17', F, 'SelectedSet.any_selected', params=dict(self=SelSetRec),
+    ensures=[
+        ('never_a_readonly_selection', lambda s: when_some(s.result, lambda r: s.self._set.has(r) & ~s.wrap(r).readonly)),
+        ('none_only_if_no_read_write_selection', lambda s: implies(
+            is_none(s.result), forall(lambda x: implies(s.self._set.has(x), s.wrap(x).readonly), sort=SelR))),
+    ],
+    loops={0: Loop(invariant=[('all_before_are_readonly', lambda s: forall(lambda i: implies(
+        (i >= 0) & (i < s.k), s.wrap(s.seq.elem(_t(i))).readonly)))])},
+    modifies=[], raises_only=(), pure=True)
